@@ -12,25 +12,27 @@ type Opts struct {
 	// Str produces the string for a position class. nil => plain words.
 	Str func(pos string) string
 	// Scalar, when non-nil, overrides generation of "any"-typed leaf values.
-	MaxSteps       int
-	MaxDepth       int  // group nesting
-	Unknown        bool // allow steps of unknown kind / unknown scalars
-	ScalarStep     bool // allow "wait"/"block" scalar steps
-	BareList       bool // allow the legacy bare step list as the whole document
-	TopExtras      bool
-	PipeEnv        bool
-	BigMaps        bool // let some maps exceed 8 / 64 entries
-	Signature      bool // pre-existing signature records on some command steps
-	TypeKey        bool // sometimes use `type:` to select the step kind
-	Aliases        bool // alias keys (name/id/identifier/commands)
-	NonStrEnv      bool // non-string scalars in env / matrix
-	Timestamps     bool // allow unquoted timestamps in "any" positions (YAML only)
-	OnlyCommandish bool // only command steps and groups (signing worlds)
-	ShareSubtrees  bool // reuse generated subtrees (rendered as YAML anchor + aliases)
-	TwoKindSteps   bool // now and then a step mapping carries keys of two step kinds
-	counter        int
-	pool           []*Node
-	shareID        int
+	MaxSteps        int
+	MaxDepth        int  // group nesting
+	Unknown         bool // allow steps of unknown kind / unknown scalars
+	ScalarStep      bool // allow "wait"/"block" scalar steps
+	BareList        bool // allow the legacy bare step list as the whole document
+	TopExtras       bool
+	PipeEnv         bool
+	BigMaps         bool // let some maps exceed 8 / 64 entries
+	Signature       bool // pre-existing signature records on some command steps
+	TypeKey         bool // sometimes use `type:` to select the step kind
+	Aliases         bool // alias keys (name/id/identifier/commands)
+	NonStrEnv       bool // non-string scalars in env / matrix
+	Timestamps      bool // allow unquoted timestamps in "any" positions (YAML only)
+	OnlyCommandish  bool // only command steps and groups (signing worlds)
+	ShareSubtrees   bool // reuse generated subtrees (rendered as YAML anchor + aliases)
+	BothCommandKeys bool // now and then a command step carries both `command` and `commands`
+	LongPipelines   bool // now and then a pipeline of 31..130 small steps
+	TwoKindSteps    bool // now and then a step mapping carries keys of two step kinds
+	counter         int
+	pool            []*Node
+	shareID         int
 }
 
 func (o *Opts) str(pos string) string {
@@ -428,6 +430,21 @@ func (o *Opts) EnvMap(posName, posVal string, n int) *Node {
 	return m
 }
 
+// commandList generates a list of command lines; an empty line now and then (legal: the lines are joined).
+func (o *Opts) commandList() *Node {
+	t := o.T
+	n := 1 + t.Draw(3, "cmd:n")
+	s := &Node{Kind: KSeq, Seq: []*Node{}}
+	for i := 0; i < n; i++ {
+		if t.Draw(10, "cmd:emptyline") == 9 {
+			s.Seq = append(s.Seq, Str(""))
+			continue
+		}
+		s.Seq = append(s.Seq, Str(o.str("command")))
+	}
+	return s
+}
+
 // CommandStep generates a command step mapping.
 func (o *Opts) CommandStep() *Node {
 	t := o.T
@@ -445,19 +462,9 @@ func (o *Opts) CommandStep() *Node {
 			if !o.Aliases {
 				k = "command"
 			}
-			n := 1 + t.Draw(3, "cmd:n")
-			s := &Node{Kind: KSeq, Seq: []*Node{}}
-			for i := 0; i < n; i++ {
-				s.Seq = append(s.Seq, Str(o.str("command")))
-			}
-			m.Set(k, s)
+			m.Set(k, o.commandList())
 		case 3:
-			n := 1 + t.Draw(3, "cmd:n")
-			s := &Node{Kind: KSeq, Seq: []*Node{}}
-			for i := 0; i < n; i++ {
-				s.Seq = append(s.Seq, Str(o.str("command")))
-			}
-			m.Set("command", s)
+			m.Set("command", o.commandList())
 		case 4:
 			if o.Aliases {
 				m.Set("commands", Str(o.str("command")))
@@ -466,6 +473,14 @@ func (o *Opts) CommandStep() *Node {
 			}
 		case 5:
 			// plugin-only step: no command key at all; plugins forced below
+		}
+		// both spellings of the command key in one step (the main key wins, wherever it is written)
+		if o.BothCommandKeys && o.Aliases && cform != 5 && t.Draw(8, "cmd:both-keys") == 7 {
+			if m.Has("command") && !m.Has("commands") {
+				m.Set("commands", Str(o.str("command")))
+			} else if m.Has("commands") && !m.Has("command") {
+				m.Set("command", Str(o.str("command")))
+			}
 		}
 	})
 	if t.Draw(3, "cmd:label?") != 0 {
@@ -679,6 +694,21 @@ func (o *Opts) Pipeline() *Node {
 	t := o.T
 	n := 1 + t.Draw(o.MaxSteps, "pipe:nsteps")
 	steps := &Node{Kind: KSeq, Seq: []*Node{}}
+	if o.LongPipelines && t.Draw(16, "pipe:long") == 15 {
+		// a long pipeline of small steps (sizes around and beyond 32, 64, 128)
+		n = []int{31, 32, 33, 34, 35, 47, 63, 65, 66, 97, 129, 130}[t.Draw(12, "pipe:nlong")]
+		save := o.BigMaps
+		o.BigMaps = false
+		for i := 0; i < n; i++ {
+			if t.Draw(4, "pipe:long-kind") == 3 {
+				steps.Seq = append(steps.Seq, o.Step(o.MaxDepth))
+			} else {
+				steps.Seq = append(steps.Seq, Map().Set("command", Str(o.str("command"))))
+			}
+		}
+		o.BigMaps = save
+		n = 0
+	}
 	for i := 0; i < n; i++ {
 		steps.Seq = append(steps.Seq, o.Step(0))
 	}
